@@ -3,6 +3,7 @@ CONSTANTS
   BoundedWalk = TRUE
   MaxLinkMaps = 4
   NNodes = 2
+  StopOnDecodeError = TRUE
 INVARIANT Verdict
 POSTCONDITION Accepted
 CHECK_DEADLOCK FALSE
